@@ -47,6 +47,7 @@ class Design:
         self.code = None
         self.source_text = None
         self.fan = []
+        self.fm = []
         self.comb_ids = ()
         self.ff_ids = ()
         self.clk_slots = set()
@@ -457,7 +458,14 @@ def _expr_text(e):
 
 def _finalise(d):
     n = len(d.init)
-    fan = [[] for _ in range(n)]
+    slot_var = [None] * n
+    for v in d.vars:
+        for k in range(v.slot, v.slot + v.nslots):
+            slot_var[k] = v
+    # sensitivity at bit granularity: per variable element, the bits each
+    # process may read (IEEE 1800-2017 9.2.2.2.1: longest static prefix of each
+    # select); an always_comb is not sensitive to the bits it writes itself.
+    readers = [dict() for _ in range(n)]          # slot -> {read mask: [pid, ...]}
     for p in d.procs:
         if p.kind == 'ff':
             continue
@@ -468,26 +476,23 @@ def _finalise(d):
                 rmask &= ~g.writes.get(slot, 0)
             if rmask:
                 sens.append(slot)
-                fan[slot].append(p.id)
+                readers[slot].setdefault(rmask, []).append(p.id)
         p.sens = tuple(sens)
-    d.fan = [tuple(f) for f in fan]
-    var_fan = {}
+    d.fm = [tuple((m, tuple(pids)) for m, pids in sorted(r.items())) for r in readers]
+    d.fan = [tuple(sorted({pid for _, pids in f for pid in pids})) for f in d.fm]
 
-    def fan_slot(slot):
-        return d.fan[slot]
-
-    def fan_var(var):
-        f = var_fan.get(var)
-        if f is None:
-            s = set()
-            for k in range(var.slot, var.slot + var.nslots):
-                s.update(d.fan[k])
-            f = var_fan[var] = tuple(sorted(s))
-        return f
+    def wake_groups(slot, wmask):
+        out = []
+        for m, pids in d.fm[slot]:
+            if m & wmask:
+                # every bit this writer can change lies inside the reader's mask:
+                # any change wakes it, no mask test needed
+                out.append((None if not (wmask & ~m) else m, pids))
+        return out
 
     src = []
     for p in d.procs:
-        src.append(p.gen.render('p%d' % p.id, fan_slot, fan_var))
+        src.append(p.gen.render('p%d' % p.id, wake_groups, slot_var.__getitem__))
     d.source_text = '\n\n'.join(src) + '\n'
     d.code = compile(d.source_text, '<svsim:%s>' % d.top, 'exec')
     d.comb_ids = tuple(p.id for p in d.procs if p.kind != 'ff')
